@@ -20,7 +20,7 @@ def clean_gen(extra=None):
 
 def build_jobs(prop, tier, seed, do, monitors, streams=None, want=None, monitor_opts=None, per_job=None,
                njobs=None, jit_share=0.3, orders=0, configs="random", configs_per_model=3, cost_share=0.2,
-               objectives_per_model=2, task_extra=None):
+               objectives_per_model=2, task_extra=None, pairs_jobs=None):
     q = tier == "quick"
     want = want or [prop]
     njobs = njobs or (14 if q else 16)
@@ -44,6 +44,21 @@ def build_jobs(prop, tier, seed, do, monitors, streams=None, want=None, monitor_
             task.update(task_extra)
         jobs.append(Job("framework.props.models", "run_models", task, mode=mode,
                         timeout=300 if q else 1800, tag="clean:%s:%d" % (mode, j), stall_s=60 if q else 120))
+    # interaction stream: every ordered pair of constraint types forced to share a variable (mover x watcher)
+    if pairs_jobs is None:
+        pairs_jobs = 2 if q else 6
+    for j in range(pairs_jobs):
+        task = {
+            "props": want, "seed": seed * 211 + j * 7 + 3, "count": 324, "pairs": j * 131,
+            "configs": "random", "configs_per_model": 2, "cost": False, "monitors": monitors,
+            "monitor_opts": monitor_opts or {}, "do": do, "objectives_per_model": 1,
+            "max_points": 6000, "deadline_s": 60 if q else 900, "stream": "type_pairs",
+        }
+        if task_extra:
+            task.update(task_extra)
+        mode = "jit" if (jit_share > 0 and j % 3 == 2) else "interp"
+        jobs.append(Job("framework.props.models", "run_models", task, mode=mode, timeout=300 if q else 1800,
+                        tag="pairs:%s:%d" % (mode, j), stall_s=60 if q else 120))
     # targeted streams: one per open mechanism that a model can exercise (interpreted: hangs are cut by the budget)
     om = open_mechanisms()
     if "gcc_zero_capacity" in om:
